@@ -195,13 +195,24 @@ def run_c07(t, tier, res):
     if osc.ip != ro.ip or osc.cp != rcp or osc.ln[1:] != [ro.ln[i] for i in sorted(ro.ln)]:
         res.violate("C07", "scorer_omen_reads_differently", {"ip_equal": osc.ip == ro.ip, "cp_equal": osc.cp == rcp, "encoding": enc})
         return
-    ks = load_omen_keyspace(rdir)
+    try:
+        # as PcfgGrammar.__init__ calls it (with the ruleset's encoding where the signature takes one)
+        import inspect
+        if len(inspect.signature(load_omen_keyspace).parameters) >= 2:
+            ks = load_omen_keyspace(rdir, enc)
+        else:
+            ks = load_omen_keyspace(rdir)
+    except Exception:
+        import traceback
+        res.violate("C07", "guesser_keyspace_loader_failed", {"exception": traceback.format_exc()[-500:], "encoding": enc})
+        return
     want = {}
-    with open(os.path.join(odir, "omen_keyspace.txt"), "rb") as f:
-        for raw in f.read().split(b"\n"):
-            if raw.strip():
-                a, b = raw.split(b"\t")
-                want[int(a)] = int(b)
+    from ..refmodel import _file_bytes
+    kdata, _kenc = _file_bytes(os.path.join(odir, "omen_keyspace.txt"), enc)
+    for raw in kdata.split(b"\n"):
+        if raw.strip():
+            a, b = raw.split(b"\t")
+            want[int(a)] = int(b)
     if ks != want:
         res.violate("C07", "keyspace_reads_differently", {})
         return
